@@ -510,6 +510,14 @@ def corruptions(version, o, two_point_rng=None):
             oo = copy.deepcopy(o)
             oo["objects"].append({"type": "file", "id": "file--5b3b0b3c-0a4e-4f0f-9c57-0d7f7a1b2c10", "name": "a-2.1-object.txt"})
             yield "member|object|sco-of-2.1-as-member-of-2.0-bundle", "objects.%d" % (len(oo["objects"]) - 1), oo
+    if version == "2.0" and o.get("type") == "observed-data" and isinstance(o.get("objects"), dict):
+        # any string may be the key of a contained object -- also one the library uses as a marker of its own -- and the
+        # references of the other members are bound to the keys that exist all the same
+        for star in ("*", "**", "* "):
+            oo = copy.deepcopy(o)
+            oo["objects"][star] = {"type": "file", "name": "keyed-with-a-star"}
+            oo["objects"]["stixmon-dangling"] = {"type": "directory", "path": "/tmp", "contains_refs": ["no-such-key"]}
+            yield "container|objects|object-key-%r-beside-a-dangling-reference" % star, "objects", oo
     for lab, oo in constraint_breaks(version, o, objects):
         yield lab.replace(":", "|", 1) + "|co-constraint", "", oo
     if two_point_rng is not None:
